@@ -437,6 +437,9 @@ class UTPM(Ring, RawAlgorithmsMixIn):
             return UTPM.exp(UTPM.log(self)*r)
         else:
             x_data = self.data
+            if numpy.iscomplexobj(r) and not numpy.iscomplexobj(x_data):
+                # real polynomial ** complex scalar: the result is complex
+                x_data = x_data.astype(numpy.promote_types(x_data.dtype, numpy.asarray(r).dtype))
             y_data = numpy.zeros_like(x_data)
             self._pow_real(x_data, r, y_data)
             return self.__class__(y_data)
